@@ -42,9 +42,17 @@ var c32Programs = []c32Prog{
 	{"two-sessions-typed", []string{"global int vti = 1; global int vti = 2", "out $vti; out $vti"}},
 	{"set-while-block-compiles", []string{"a [1..2] -> foreach i { out $i } -> set vz; out $vz"}},
 	{"bg-local", []string{"bg { vla = 1 }; vlb = 2; out $vlb"}},
+	// two stages of one pipeline inside a function share the function's parameters: one expands them, the
+	// other parses (and, for an alias, rewrites) its copy
+	{"params-shared-by-stages", []string{"function vra { out $1 $2 $PARAMS | args a %{AllowAdditional: true, Flags: {--bool: bool, -b: --bool}} }; vra -b foo"}},
 }
 
 var c32More = []c32Prog{
+	// whole-table dumps while another job writes the table
+	{"runtime-aliases-vs-alias", []string{"bg { alias vra=out a }; runtime --aliases -> null"}},
+	{"runtime-globals-vs-global", []string{"bg { global vrg = 1 }; runtime --globals -> null"}},
+	{"runtime-fids-vs-alias-flag", []string{"bg { runtime --fids -> null }; tout json ({\"a\":{\"b\":1}}) -> struct-keys -d 1 -> null"}},
+	{"two-writers-one-structure", []string{"set json vjs = ({\"k\": 1}); bg { $vjs.k = 2 }; $vjs.k = 3; out $vjs"}},
 	{"args", []string{"args %{AllowAdditional: true} fl; out $fl", "args %{AllowAdditional: true} fm; out $fm"}},
 	{"alias", []string{"alias vz=out z; vz", "alias vy=out y; vy"}},
 	{"subshell", []string{"out ${ out sub } @{ a [1..2] }"}},
@@ -170,6 +178,8 @@ func signature(report string) (sig string, murex bool, detail string) {
 // object-level drivers of C01/C02/C26 run under the race detector as well (preemption bound 1)
 func objectLevel(c *vlib.Ctx, seen map[string]bool) {
 	scs := append(pipes.RaceScenarios(), npipes.RaceScenarios()...)
+	WarmObjects()
+	scs = append(scs, ObjectPairScenarios()...)
 	if c.Quick() {
 		// quick tier: the data-type drivers, four byte-stream drivers and the registry pairs of one
 		// operation per thread
